@@ -10,7 +10,7 @@ from pbt.core import call, draw_tz, workdir
 
 PROP = "C12"
 TECHNIQUE = "bounded exhaustive enumeration of all short encodings (state-machine transition coverage) + Hypothesis-sampled long forecasts vs. the generating list (round trip through a reference encoder); negative cases with decreasing ids must be rejected"
-RULE = ("exhaustive: n <= 5 catalogs x 0..2 events each x placeholder/omitted for every empty non-final catalog x header yes/no (2046 files), "
+RULE = ("(after a refused file the well-formed one is written under the same name and loaded, a judged direct load first) exhaustive: n <= 5 catalogs x 0..2 events each x placeholder/omitted for every empty non-final catalog x header yes/no (2046 files), "
         "each loaded through CSEPCatalog.load_ascii_catalogs, csep.load_stochastic_event_sets and iteration of csep.load_catalog_forecast; "
         "sampled: up to 400 catalogs with long gaps, leading gaps, consecutive placeholders, times with/without fractional seconds, ids with "
         "delimiters/quotes; negative: two id groups swapped so ids decrease => ValueError. Non-trivial = encoding with an omitted empty "
